@@ -21,8 +21,9 @@ const int vf_tunings[][8] = {
     {0, 8, 4, 16, 4, 4, 1, 8},            /* 12 */
     {0, 2, 4, 1, 2, 2, 1, 4},             /* 13 relaxed supernodes of up to 4 columns, every other column its own supernode: lsub grows fastest */
     {0, 3, 8, 2, 2, 2, 1, 8},             /* 14 */
+    {0, 3, 1, 4, 3, 1, 1, 3},             /* 15 row block > column block and (maxsuper + rowblk) * panel > n: the 2-D update uses the scratch vector beyond its first n entries */
 };
-const int vf_ntunings = 15;
+const int vf_ntunings = 16;
 
 /* structural rank by augmenting paths; bit (i*n+j) set <=> entry (i,j) */
 static int aug(int m, int n, uint64_t pat, int j, int *seen, int *rowmatch)
